@@ -2,13 +2,16 @@
 MUST-victim-counted, MUST-reject-touches-nothing, MUST-admit-or-remove, CMP-oversize, CMP-capacity,
 CMP-evict, SCAN-from-front, MUST-recency, MUST-evict."""
 from .core import RuleResult, CheckFailure
+from .roles import named
 from .kernel import norm
 from .roles import get_roles, HASHMAP_REMOVE, DASHMAP_REMOVE
 from .symex import fmt, subterms, PathLimit
 from .rules_live import norm_literal, literals_of, has_call, has_field
 from .rules_flow import lin, strip_cast
+from .roles import upsert_role
 
-ADMITS = [('unsync::cache::Cache::admit', 'unsync'), ('sync::base_cache::Inner::admit', 'sync')]
+def admits(ctx):
+    return [(named(ctx, 'unsync.admit'), 'unsync'), (named(ctx, 'sync.admit'), 'sync')]
 
 
 def _run(ctx, nid, **kw):
@@ -75,7 +78,7 @@ def rule_cmp_admit(ctx):
                    '(shortest prefix) and stops early when candidate.freq < victims.freq; both caches agree (SIB)')
     prog = ctx.prog
     shapes = {}
-    for nid, kind in ADMITS:
+    for nid, kind in admits(ctx):
         if nid not in prog.bodies:
             continue
         rows = admit_summary(ctx, nid)
@@ -164,7 +167,7 @@ def rule_flow_admit_sums(ctx):
                    'victim list; the candidate\'s freq is the sketch frequency of the candidate\'s own hash')
     prog = ctx.prog
     R = get_roles(ctx)
-    for nid, kind in ADMITS:
+    for nid, kind in admits(ctx):
         if nid not in prog.bodies:
             continue
         rows = admit_summary(ctx, nid)
@@ -226,7 +229,7 @@ def rule_flow_admit_sums(ctx):
         if n < 3 and not r.violations:
             raise CheckFailure('FLOW-admit-sums: only %d decision paths in %s' % (n, nid))
     # candidate frequency origin, at the callers
-    for caller, hname in (('unsync::cache::Cache::handle_insert', 'hash'), ('sync::base_cache::Inner::handle_upsert', None)):
+    for caller, hname in ((named(ctx, 'unsync.insert_handler'), 'hash'), (named(ctx, 'sync.upsert'), None)):
         if caller not in prog.bodies:
             continue
         b = prog.bodies[caller]
@@ -234,14 +237,15 @@ def rule_flow_admit_sums(ctx):
             if p.diverged:
                 continue
             for e in p.events:
-                if e[0] == 'call' and e[1] in [a for a, _ in ADMITS]:
+                if e[0] == 'call' and e[1] in [a for a, _ in admits(ctx)]:
                     cand = e[2][0]
                     fr = [x for x in subterms(cand) if isinstance(x, tuple) and x and x[0] == 'call' and str(x[1]).endswith('FrequencySketch::frequency')]
                     ok = len(fr) == 1 and any((isinstance(y, tuple) and y and y[0] == 'param' and b.local_name(y[1]) in ('hash', 'kh')) for y in subterms(fr[0][2][1]))
                     # the candidate's weight is the inserted entry's weight, unmodified
                     cw = cand[3][0] if isinstance(cand, tuple) and cand[0] == 'aggr' and cand[3] else None
                     cw0 = strip_cast(cw) if cw is not None else None
-                    wok = isinstance(cw0, tuple) and cw0[0] == 'param' and b.local_name(cw0[1]) in ('policy_weight', 'new_weight')
+                    wok = isinstance(cw0, tuple) and cw0[0] == 'param' and b.local_ty(cw0[1])['s'] == 'u32' and \
+                        (caller.startswith('unsync::') or cw0[1] == (upsert_role(ctx) or {}).get('new'))
                     if not wok:
                         r.violate(caller, 'candidate-weight', 'weight', 'the candidate passed to the admission scan weighs `%s` instead of the inserted entry\'s own weight: the prefix it must beat is too short / long' % fmt(cw)[:80],
                                   where=ctx.where(caller, e[3]), expected='EntrySizeAndFrequency::new(policy_weight)')
@@ -260,13 +264,17 @@ def rule_admission_outcomes(ctx):
                    'weighted_size + weight <= max_capacity (inclusive)')
     prog = ctx.prog
     R = get_roles(ctx)
-    for nid, kind in (('unsync::cache::Cache::handle_insert', 'unsync'), ('sync::base_cache::Inner::handle_upsert', 'sync')):
+    for nid, kind in ((named(ctx, 'unsync.insert_handler'), 'unsync'), (named(ctx, 'sync.upsert'), 'sync')):
         if nid not in prog.bodies:
             continue
         b = prog.bodies[nid]
-        wname = 'policy_weight' if kind == 'unsync' else 'new_weight'
-        wp = [i for i in range(1, b.argc + 1) if b.local_name(i) == wname]
-        if not wp:
+        if kind == 'sync':
+            from .roles import upsert_role
+            ur = upsert_role(ctx)
+            wp = [ur['new']] if ur and ur['nid'] == nid else []
+        else:
+            wp = [i for i in range(1, b.argc + 1) if b.local_ty(i)['s'] == 'u32']
+        if len(wp) != 1:
             raise CheckFailure('MUST-admit-or-remove: weight parameter of %s not found' % nid)
         W = ('param', wp[0])
         remove_set = HASHMAP_REMOVE if kind == 'unsync' else DASHMAP_REMOVE
@@ -295,9 +303,9 @@ def rule_admission_outcomes(ctx):
             unbounded = any(isinstance(t, tuple) and t[0] == 'discr' and has_field(t[1], ('max_capacity',)) and v == 0 for t, v in lits)
             pushes = [e for e in p.events if e[0] == 'call' and str(e[1]).endswith('push_back_ao')]
             removals = [e for e in p.events if e[0] == 'call' and e[1] in remove_set]
-            admit_calls = [e for e in p.events if e[0] == 'call' and e[1] in [a for a, _ in ADMITS]]
+            admit_calls = [e for e in p.events if e[0] == 'call' and e[1] in [a for a, _ in admits(ctx)]]
             cand_removed = [e for e in removals if len(e[2]) > 1 and any(isinstance(x, tuple) and x and x[0] == 'param' for x in subterms(e[2][1])) and
-                            not any(isinstance(x, tuple) and x and x[0] == 'call' and x[1] in [a for a, _ in ADMITS] for x in subterms(e[2][1]))]
+                            not any(isinstance(x, tuple) and x and x[0] == 'call' and x[1] in [a for a, _ in admits(ctx)] for x in subterms(e[2][1]))]
             res_removed = [e for e in removals if e not in cand_removed]
             if kind == 'sync':
                 # already-admitted (update) and stale-op paths are not admission attempts
@@ -345,7 +353,7 @@ def rule_admission_outcomes(ctx):
         if n < 4 and not r.violations:
             raise CheckFailure('MUST-admit-or-remove: only %d admission paths in %s' % (n, nid))
     # CMP-capacity: the fits predicate itself
-    for nid in ('unsync::cache::Cache::has_enough_capacity', 'sync::base_cache::Inner::has_enough_capacity'):
+    for nid in (named(ctx, 'unsync.has_capacity'), named(ctx, 'sync.has_capacity')):
         if nid not in prog.bodies:
             continue
         for p in _run(ctx, nid, inline_depth=2):
@@ -369,12 +377,13 @@ def rule_cmp_evict(ctx):
                    'runs it after applying writes, guarded only by weights_to_evict > 0')
     prog = ctx.prog
     R = get_roles(ctx)
-    for nid, kind in (('unsync::cache::Cache::evict_lru_entries', 'unsync'), ('sync::base_cache::Inner::evict_lru_entries', 'sync')):
+    for nid, kind in ((named(ctx, 'unsync.evict_lru'), 'unsync'), (named(ctx, 'sync.evict_lru'), 'sync')):
         if nid not in prog.bodies:
             continue
         b = prog.bodies[nid]
         paths = [p for p in _run(ctx, nid, inline_depth=3, loop_visits=2, inline_pred=lambda n_, bb, d: False if ('handle_remove' in n_ or 'try_skip' in n_) else None) if not p.diverged]
-        wte_param = [i for i in range(1, b.argc + 1) if b.local_name(i) == 'weights_to_evict']
+        # the excess handed in by the maintenance run: the u64 parameter (batch_size is usize)
+        wte_param = [i for i in range(1, b.argc + 1) if b.local_ty(i)['s'] == 'u64'] if kind == 'sync' else []
         seen_exit = seen_rm = 0
         for p in paths:
             for t, v in _ordered_literals(p):
@@ -414,7 +423,7 @@ def rule_cmp_evict(ctx):
         if (seen_exit < 1 or seen_rm < 1) and not r.violations:
             raise CheckFailure('CMP-evict: exit test / removal not recognised in %s (%d, %d)' % (nid, seen_exit, seen_rm))
     # weights_to_evict role
-    for nid in ('unsync::cache::Cache::weights_to_evict', 'sync::base_cache::Inner::weights_to_evict'):
+    for nid in (named(ctx, 'unsync.weights_to_evict'), named(ctx, 'sync.weights_to_evict')):
         if nid not in prog.bodies:
             continue
         for p in _run(ctx, nid, inline_depth=2):
@@ -428,7 +437,7 @@ def rule_cmp_evict(ctx):
             if not ok:
                 r.violate(nid, 'weights-to-evict', fmt(ret)[:50], 'weights_to_evict is `%s`' % fmt(ret), where=ctx.where(nid), expected='weighted_size.saturating_sub(max_capacity)')
     # MUST-evict: unsync mutators call the eviction before their own map access
-    ev = 'unsync::cache::Cache::evict_lru_entries'
+    ev = named(ctx, 'unsync.evict_lru')
     for m in ('insert', 'get', 'contains_key', 'invalidate'):
         nid = 'unsync::cache::Cache::' + m
         b = ctx.body(nid)
@@ -440,25 +449,26 @@ def rule_cmp_evict(ctx):
         if not ok:
             r.violate(nid, 'no-eviction', 'evict_lru_entries', '%s does not run the over-capacity eviction before its own work on every path' % nid, where=ctx.where(nid))
     if R.maintenance:
+        WTE, EVL = named(ctx, 'sync.weights_to_evict'), named(ctx, 'sync.evict_lru')
         for m in sorted(R.maintenance):
             paths = [p for p in _run(ctx, m, inline_depth=1, loop_visits=2, inline_pred=lambda n_, bb, d: False) if not p.diverged]
             for p in paths:
                 guard = None
                 for t, v in _ordered_literals(p):
                     if isinstance(t, tuple) and t[0] == 'cmp' and t[1] == 'le' and (
-                            (t[3] == ('c', 0) and (has_call(t[2], ('weights_to_evict',)) or 'saturating_sub' in fmt(t[2]))) or
+                            (t[3] == ('c', 0) and (has_call(t[2], (WTE,)) or 'saturating_sub' in fmt(t[2]))) or
                             (t[2] == ('c', 0) and False)):
                         guard = (not v)     # le(wte, 0) == False  <=> wte > 0
-                    if isinstance(t, tuple) and t[0] == 'cmp' and t[1] == 'le' and t[2] == ('c', 1) and (has_call(t[3], ('weights_to_evict',)) or 'saturating_sub' in fmt(t[3])):
+                    if isinstance(t, tuple) and t[0] == 'cmp' and t[1] == 'le' and t[2] == ('c', 1) and (has_call(t[3], (WTE,)) or 'saturating_sub' in fmt(t[3])):
                         guard = v
-                called = any(e[0] == 'call' and str(e[1]).endswith('Inner::evict_lru_entries') for e in p.events)
+                called = any(e[0] == 'call' and str(e[1]) == EVL for e in p.events)
                 # freshness: the excess handed to the eviction is computed after everything else that changes the run counters
-                ev_i = [i for i, e in enumerate(p.events) if e[0] == 'call' and str(e[1]).endswith('Inner::evict_lru_entries')]
+                ev_i = [i for i, e in enumerate(p.events) if e[0] == 'call' and str(e[1]) == EVL]
                 if ev_i:
                     ev = p.events[ev_i[0]]
-                    excess = [a for a in ev[2] if has_call(a, ('weights_to_evict',)) or 'saturating_sub' in fmt(a)]
-                    wte_i = [i for i, e in enumerate(p.events[:ev_i[0]]) if e[0] == 'call' and str(e[1]).endswith('weights_to_evict')]
-                    mut_i = [i for i, e in enumerate(p.events[:ev_i[0]]) if e[0] == 'call' and e[1] in prog.bodies and not str(e[1]).endswith('weights_to_evict') and
+                    excess = [a for a in ev[2] if has_call(a, (WTE,)) or 'saturating_sub' in fmt(a)]
+                    wte_i = [i for i, e in enumerate(p.events[:ev_i[0]]) if e[0] == 'call' and str(e[1]) == WTE]
+                    mut_i = [i for i, e in enumerate(p.events[:ev_i[0]]) if e[0] == 'call' and e[1] in prog.bodies and str(e[1]) != WTE and
                              any('EvictionCounters' in l['ty']['s'] and l['ty']['s'].startswith('&mut') for l in prog.bodies[e[1]].locals[1:prog.bodies[e[1]].argc + 1])]
                     fresh = bool(wte_i) and (not mut_i or max(wte_i) > max(mut_i))
                     r.instance(function=m, excess_computed_after_last_counter_change=fresh)
@@ -503,7 +513,7 @@ def rule_must_recency(ctx):
             r.violate('unsync::cache::Cache::get', 'hit-without-recency', 'move_to_back', 'a hit path of unsync get does not move the entry to the back of the access-order deque',
                       where=ctx.where('unsync::cache::Cache::get'))
     # unsync update
-    nid = 'unsync::cache::Cache::handle_update'
+    nid = named(ctx, 'unsync.update_handler')
     for p in _run(ctx, nid, inline_depth=3):
         if p.diverged:
             continue
@@ -578,7 +588,7 @@ def rule_must_recency(ctx):
                     r.violate(c, 'hit-time-not-applied', 'last_accessed', 'the read-op consumer receives %d Hit(s) on a path but advances last_accessed %d time(s) (conditions: %s): a successful get does not '
                               'extend the idle deadline' % (nhits, nadv, [fmt(t)[:40] + '==' + str(v) for t, v in p.conds][:6]), where=ctx.where(c),
                               expected='advance_last_accessed(timestamp) for every Hit, admitted or not')
-        up = 'sync::base_cache::Inner::handle_upsert'
+        up = named(ctx, 'sync.upsert')
         if up in prog.bodies:
             for p in _run(ctx, up, inline_depth=3, loop_visits=2, inline_pred=lambda n_, bb, d: False if ('handle_remove' in n_) else None):
                 if p.diverged:
